@@ -1,7 +1,7 @@
 (* driver for C14: same case format as harness/src/c14.rs. Output: every outcome the model allows
    (HashMap order), separated by " || " *)
-let addr_num = [| "168364297" (*10.9.9.9*); "184486143" (*10.255.8.255*); "42540766411282592856903984951653826569" (*2001:db8::9*) |]
-let addr_txt = [| "10.9.9.9"; "10.255.8.255"; "[2001:db8::9]" |]
+let addr_num = [| "168364297" (*10.9.9.9*); "184486143" (*10.255.8.255*); "42540766411282592856903984951653826569" (*2001:db8::9*); "281473902969345" (*::ffff:192.0.2.1, an IPv6 address*) |]
+let addr_txt = [| "10.9.9.9"; "10.255.8.255"; "[2001:db8::9]"; "[::ffff:192.0.2.1]" |]
 
 let () =
   for_each_case Sys.argv.(1) (fun f ->
@@ -13,17 +13,17 @@ let () =
     let conns = List.map (fun c -> match split_on ':' c with
       | ["o"; s; a; port; st] ->
         let a = int_of_string a in
-        { c_secure = (s = "1"); c_outgoing = true; c_v6 = (a = 2); c_ip = n_of_decimal addr_num.(a);
+        { c_secure = (s = "1"); c_outgoing = true; c_v6 = (a >= 2); c_ip = n_of_decimal addr_num.(a);
           c_port = n_of_decimal port; c_usable = (st <> "dead") }
       | ["i"; s; a; port] ->
         let a = int_of_string a in
-        { c_secure = (s = "1"); c_outgoing = false; c_v6 = (a = 2); c_ip = n_of_decimal addr_num.(a);
+        { c_secure = (s = "1"); c_outgoing = false; c_v6 = (a >= 2); c_ip = n_of_decimal addr_num.(a);
           c_port = n_of_decimal port; c_usable = true }
       | _ -> failwith "bad conn") (items f.(4)) in
     let u = match split_on ':' f.(5) with
       | s :: a :: port :: _ ->       (* a fourth field is the URI's transport= parameter: not looked at for IP literals *)
         let a = int_of_string a in
-        ({ u_secure = (s = "1"); u_v6 = (a = 2); u_ip = n_of_decimal addr_num.(a);
+        ({ u_secure = (s = "1"); u_v6 = (a >= 2); u_ip = n_of_decimal addr_num.(a);
            u_port = (if port = "-" then None else Some (n_of_decimal port)) }, a)
       | _ -> failwith "bad uri" in
     let (u, a) = u in
